@@ -181,7 +181,8 @@ def generate(rng, tier, i):
 
 def mk(spec):
     g = _g
-    return g.Rectangle(center=g.Point(spec[0], spec[1]), shape=g.Shape(spec[2], spec[3]), region=spec[4], fixed=spec[5], hard=spec[6])
+    region = (spec[4] + " ")[:-1]      # an equal but DISTINCT string object (as region names read from two documents are)
+    return g.Rectangle(center=g.Point(spec[0], spec[1]), shape=g.Shape(spec[2], spec[3]), region=region, fixed=spec[5], hard=spec[6])
 
 
 def attrs(r):
@@ -436,6 +437,16 @@ def _check_pair(case, ctx):
     ok, bb3 = ctx.call(lambda: a.bounding_box)
     if ok and not close_xr(XR(bb3.ll.x, bb3.ur.x, bb3.ll.y, bb3.ur.y), A3, F(1e-12) * F(max(scale, abs(a.center.x), abs(a.center.y))) + gz):
         viol("stale_bounding_box", f"after assigning a new shape bounding_box is {bb3}, the rectangle is {A3}")
+    a.shape = g.Shape(case["a"][2], case["a"][3])
+    a.shape.w *= 0.5            # the Shape object itself resized in place
+    a.shape.h *= 1.25
+    A4 = XR.of(a)
+    ok, bb4 = ctx.call(lambda: a.bounding_box)
+    ok2, ov4 = ctx.call(a.area_overlap, b)
+    if ok and not close_xr(XR(bb4.ll.x, bb4.ur.x, bb4.ll.y, bb4.ur.y), A4, F(1e-12) * F(max(scale, abs(a.center.x), abs(a.center.y))) + gz):
+        viol("stale_bounding_box", f"after resizing the shape in place bounding_box is {bb4}, the rectangle is {A4}")
+    if ok2 and abs(F(ov4) - A4.inter_area(B)) > ta:
+        viol("stale_area_overlap", f"after resizing the shape in place area_overlap gives {ov4!r}, exact {float(A4.inter_area(B))!r}")
     a.shape = g.Shape(case["a"][2], case["a"][3])
 
     # ---- grid ---------------------------------------------------------------------------------------
